@@ -127,12 +127,15 @@ if os.environ.get('MUT_ALL') is None and os.path.exists(FILTER):
     # only the mutants a previous campaign found to compile and pass the repository's tests
     want = {(d['file'], d['old'], d['new']) for d in json.load(open(FILTER))}
     muts = [m for m in muts if (m[0], m[2].strip(), m[3].strip()) in want]
+if os.environ.get('MUT_FILES'):
+    keepf = set(os.environ['MUT_FILES'].split(','))
+    muts = [m for m in muts if m[0] in keepf]
 muts = muts[:LIMIT]
 print(len(muts), 'mutants', file=sys.stderr)
 q = queue.Queue()
 for x in enumerate(muts):
     q.put(x)
 lock = threading.Lock()
-out = open(HERE + '/mutation_results.jsonl', 'w')
+out = open(HERE + '/' + os.environ.get('MUT_OUT', 'mutation_results.jsonl'), 'w')
 ts = [threading.Thread(target=work, args=(w, q, out, lock)) for w in range(PAR)]
 [t.start() for t in ts]; [t.join() for t in ts]
